@@ -56,14 +56,14 @@ class MuxModel:
                 self.by_addr[a] = (i, a - r["start"])
         self.prev = None          # previous cycle's (inp, reg_values)
         # transaction tracker (conformance): register index, last chunk accessed
-        self.txn = None           # dict(reg, last, capture (value|None), written {k: v})
+        self.rtxn = self.wtxn = None   # dict(reg, last, capture (value|None), written {k: v}) per direction
         self.pending_w = None     # A2 payload to compare when w_stb fires next cycle
 
     def reset(self):
         """Warm reset of the multiplexer at this clock edge: no read or write is in flight any more, the shadow
         registers hold nothing (the driver has to start its next transaction from a first chunk)."""
         self.prev = None
-        self.txn = None
+        self.rtxn = self.wtxn = None
         self.pending_w = None
         self.prev_capture = None
 
@@ -106,30 +106,42 @@ class MuxModel:
         return exp
 
     def advance(self, inp, reg_values):
-        """Clock edge: update the conformance tracker with this cycle's access."""
+        """Clock edge: update the conformance trackers with this cycle's access.
+
+        A read transaction and a write transaction are tracked separately: each is a run of strictly ascending chunk
+        accesses in its own direction to one register, starting at chunk 0. Accesses in the other direction to the *same*
+        register do not disturb it (byte-wise read-modify-write: read 0, write 0, read 1, write 1 ... is one register at a
+        time in ascending address order); an access to another register or to an unmapped address ends both."""
         self.pending_w = None
         self.prev_capture = None
         if inp["r_stb"] or inp["w_stb"]:
             hit = self.by_addr.get(inp["addr"])
             if hit is None:
-                self.txn = None                       # unmapped access ends any transaction
+                self.rtxn = self.wtxn = None          # unmapped access ends any transaction
             else:
                 i, k = hit
-                if k == 0:
-                    self.txn = {"reg": i, "last": 0, "capture": None, "written": {}}
-                elif self.txn is not None and self.txn["reg"] == i and k > self.txn["last"]:
-                    self.txn["last"] = k
-                else:
-                    self.txn = None                   # mid-register start, other register, not ascending
-                if self.txn is not None:
-                    if inp["r_stb"] and k == 0 and self.readable(i):
-                        self.txn["capture"] = reg_values[i]
-                    if inp["r_stb"] and self.readable(i):
-                        self.prev_capture = self.txn["capture"]
-                    if inp["w_stb"] and self.writable(i):
-                        self.txn["written"][k] = inp["w_data"]
-                        if inp["addr"] == self.regs[i]["end"] - 1:
-                            self.pending_w = (i, dict(self.txn["written"]))
+                for name, active in (("rtxn", inp["r_stb"]), ("wtxn", inp["w_stb"])):
+                    t = getattr(self, name)
+                    if not active:
+                        if t is not None and t["reg"] != i:
+                            setattr(self, name, None)          # one register at a time
+                        continue
+                    if k == 0:
+                        t = {"reg": i, "last": 0, "capture": None, "written": {}}
+                    elif t is not None and t["reg"] == i and k > t["last"]:
+                        t["last"] = k
+                    else:
+                        t = None                      # mid-register start, other register, not ascending
+                    setattr(self, name, t)
+                if inp["r_stb"] and self.rtxn is not None and self.readable(i):
+                    if k == 0:
+                        self.rtxn["capture"] = reg_values[i]
+                    self.prev_capture = self.rtxn["capture"]
+                if inp["w_stb"] and self.wtxn is not None and self.writable(i):
+                    self.wtxn["written"][k] = inp["w_data"]
+                    if inp["addr"] == self.regs[i]["end"] - 1:
+                        self.pending_w = (i, dict(self.wtxn["written"]))
         self.prev = (dict(inp), list(reg_values))
 
+    rtxn = wtxn = None
     prev_capture = None
